@@ -7,6 +7,7 @@ def dispatch (toks : List String) : String :=
   match toks with
   | "c13" :: rest => Pb.Drv.C13.handle rest
   | "c14" :: rest => Pb.Drv.C14.handle rest
+  | "c15" :: rest => Pb.Drv.C15.handle rest
   | "c16" :: rest => Pb.Drv.C16.handle rest
   | "c17" :: rest => Pb.Drv.C17.handle rest
   | "c18" :: rest => Pb.Drv.C18.handle rest
